@@ -1,7 +1,7 @@
 """C10 — deleting atoms removes exactly them and the terms that touch them (del atoms[idx], pop)."""
 import itertools
 
-from .. import accessors, core, gen
+from .. import accessors, core, gen, gen_shared_c10 as gsh
 
 RULE = ("structures: random consistent Atoms (≤6 atoms quick / ≤7 thorough, mixed term kinds, coefficient tables, extra "
         "columns); deletions: EVERY non-empty ordered subset for the small structures (a share of them also in numpy's "
@@ -110,7 +110,7 @@ def cases(ctx, oracle_only=False):
 
 
 def run(ctx, oracle_only=False):
-    ctx.rule = RULE + WIDE_RULE + LARGE_RULE
+    ctx.rule = RULE + WIDE_RULE + LARGE_RULE + SHARED_RULE
     cs = cases(ctx)
     ops, impls = [], []
     for kind, aj, arg in cs:
@@ -141,12 +141,14 @@ def run(ctx, oracle_only=False):
     if oracle_only:
         run_wide(ctx, oracle_only=True)
         run_large(ctx, oracle_only=True)
+        run_shared(ctx, oracle_only=True)
         return
     models = ctx.lean.run(ops)
     for inp, r, m in zip(ops, impls, models):
         ctx.compare(inp["op"], inp, r, m)
     run_wide(ctx)
     run_large(ctx)
+    run_shared(ctx)
 
 
 # =============================================================================================== widened index domain
@@ -357,6 +359,92 @@ def run_large(ctx, oracle_only=False):
         ctx.compare(op["op"], op, r, _norm_err(m))
 
 
+# =============================================================================================== handed-over tables
+
+SHARED_RULE = (" Handed-over tables (stream 'tables', harness/gen_shared_c10.py): the structure is constructed from term "
+               "tables given as python lists, tuples or integer ndarrays (int64 / int32, 15% read-only), unrelated or SHARING "
+               "memory — one array used for dihedrals and impropers over the same quadruples, bonds / angles as column views "
+               "of the angle / dihedral array, two row ranges of one master array — with terms on a random pool of the atoms "
+               "(so that some atoms touch no term); 1-3 objects (built again from the same arguments, from the first "
+               "object's attributes, copy(), deepcopy(), possibly after the source was already shortened) and 1-4 deletions "
+               "(del / pop) spread over them: atoms no term touches, atoms no row of a shared table touches, random subsets, "
+               "any order, 25% negative spellings. For small structures EVERY non-empty subset is deleted from a fresh "
+               "object. Each object is judged after each of its deletions against the structure it was built from "
+               "(brute-force ideal deletion); each step is also sent through the model.")
+
+
+def shared_cases(ctx):
+    rng = ctx.rng
+    out = []
+    # every non-empty subset, each on a fresh object, for a few small structures of every family
+    for fam in sorted(set(gsh.FAMILIES)):
+        for _ in range(ctx.n(2, 8)):
+            n = rng.randint(5, 6)
+            aj, lay = gsh.rand_structure(rng, n, fam)
+            base = gsh.scenario(rng, aj, lay, [])
+            for r in range(1, n + 1):
+                for idx in itertools.combinations(range(n), r):
+                    idx = list(idx)
+                    rng.shuffle(idx)
+                    out.append(("subsets", dict(base, steps=[["del", 0, idx]])))
+    for _ in range(ctx.n(350, 4000)):
+        fam = rng.choice(gsh.FAMILIES)
+        aj, lay = gsh.rand_structure(rng, rng.randint(4, ctx.n(8, 12)), fam)
+        out.append((fam, gsh.scenario(rng, aj, lay, gsh.rand_program(rng, aj, lay))))
+    return out
+
+
+def _judge_scenario(scn):
+    """-> (list of (step number, expected-before, dead, result) for the deletions that ran, None | (step number, text))"""
+    trace = gsh.play(scn, spell=_spell, before=accessors.touch, after=_accessors_after)
+    ran = []
+    for si, st, exp, dead, r in trace:
+        if "skip" in r:
+            break
+        ran.append((si, st, exp, dead, r))
+        bad = oracle_delete(exp, dead, r)
+        if bad:
+            what = "del objects[%d][%s]" % (st[1], st[2]) if st[0] == "del" else "objects[%d].pop(%s)" % (st[1], "" if st[2] is None else st[2])
+            return ran, (si, "step %d, %s on %d atoms: %s" % (si, what, len(exp["atoms"]), bad))
+    return ran, None
+
+
+def run_shared(ctx, oracle_only=False):
+    ops, impls = [], []
+    for fam, scn in shared_cases(ctx):
+        ctx.count("tables:" + fam)
+        first = gsh.first_dump(scn)
+        if first.get("ok") != scn["a"]:
+            # the constructor does not give the structure the scenario describes: not this property's question
+            ctx.count("tables:constructor-differs")
+            ctx.evaluations += 1
+            continue
+        for k in gen.KINDS:
+            ctx.count("tables:layout:" + scn["tables"][k].split(":")[0])
+        ran, bad = _judge_scenario(scn)
+        nontrivial = False
+        for si, st, exp, dead, r in ran:
+            touched = [bool(set(t["a"]) & set(dead)) for k in gen.KINDS for t in exp["terms"][k]]
+            nontrivial = nontrivial or (any(touched) and not all(touched))
+            if any(touched):
+                ctx.count("tables:step:touching")
+            elif touched:
+                ctx.count("tables:step:free")
+        ctx.case(scn, nontrivial=nontrivial)
+        if bad:
+            si, text = bad
+            ctx.fail(text, dict(scn, steps=scn["steps"][:si + 1]), observed=ran[-1][4])
+            continue
+        for si, st, exp, dead, r in ran:
+            ops.append({"op": "delete", "a": exp, "idx": list(dead)})
+            impls.append(_norm_err(r))
+    if oracle_only:
+        return
+    models = ctx.lean.run(ops)
+    for op, r, m in zip(ops, impls, models):
+        ctx.compare(op["op"], op, r, _norm_err(m))
+
+
 def search(ctx):
     """focused search on the real code only (no model): more and larger cases through the oracle"""
     saved = ctx.tier
@@ -369,6 +457,8 @@ def search(ctx):
 
 def replay(ctx, rec):
     inp = rec["input"]
+    if inp["op"] == "delete_scn":
+        return _judge_scenario(inp)[1] is None
     if inp["op"] == "delete_norm":
         n = len(inp["a"]["atoms"])
         r, after = _delete_any(inp["a"], inp["idx"])
